@@ -114,7 +114,7 @@ func spelled(s *ref.Struct, style int, decoys bool, salt string) *ref.Struct {
 		sf = append(sf,
 			reflect.StructField{Name: "Decoy0", Type: reflect.TypeOf(int32(0))},
 			reflect.StructField{Name: "decoy1", PkgPath: "github.com/cloudwego/frugal/zverif/universe", Type: reflect.TypeOf(""), Tag: `frugal:"77,default,string"`},
-			reflect.StructField{Name: "Emb", Anonymous: true, Type: reflect.TypeOf(universe.Emb{})},
+			reflect.StructField{Name: "Emb", Anonymous: true, Type: reflect.TypeOf(universe.Emb{}), Tag: `frugal:"79,default,Emb"`},
 		)
 	}
 	for i, f := range s.Fields {
@@ -171,6 +171,12 @@ func c12Family(tier universe.Tier) *family {
 		np, nv := universe.StPtr(namedSpec), universe.StVal(namedSpec)
 		for _, t := range []*ref.Type{np, nv, universe.ListOf(np), universe.SetOf(nv), universe.MapOf(universe.Sc(ref.KString), np), universe.MapOf(np, universe.ListOf(nv)), universe.ListOf(universe.MapOf(universe.Sc(ref.KI8), nv))} {
 			f.items = append(f.items, mk(fd(4, ref.ReqDefault, t), fd(9, ref.ReqOptional, universe.Sc(ref.KI8))))
+		}
+		// the named int64 type as enum and as plain i64 (the annotation alone decides), also side by side
+		en, ni := universe.Sc(ref.KEnum), &ref.Type{Kind: ref.KI64, Named: true}
+		for _, pair := range [][2]*ref.Type{{en, ni}, {ni, en}, {universe.ListOf(en), universe.ListOf(ni)}, {universe.MapOf(ni, universe.Sc(ref.KString)), universe.MapOf(en, universe.Sc(ref.KString))},
+			{universe.MapOf(universe.Sc(ref.KI8), universe.SetOf(ni)), universe.MapOf(universe.Sc(ref.KI8), universe.SetOf(en))}} {
+			f.items = append(f.items, mk(fd(1, ref.ReqDefault, pair[0]), fd(2, ref.ReqDefault, pair[1])), mk(fd(5, ref.ReqRequired, pair[1])))
 		}
 		// nocopy and multi-field
 		nc := mk(fd(1, ref.ReqDefault, universe.Sc(ref.KString)), fd(2, ref.ReqRequired, universe.Sc(ref.KBinary)), fd(3, ref.ReqOptional, universe.Sc(ref.KI8)))
